@@ -18,7 +18,10 @@ for meta_p in sorted(glob.glob(os.path.join(VERIF, "seeded", "C*", "*", "meta.js
     quick = res.get("quick", {})
     own = quick.get(pid, {})
     first = json.load(open(os.path.join(d, "first_result.json"))) if os.path.exists(os.path.join(d, "first_result.json")) else None
-    rows.append((pid, letter, meta, own, quick, first))
+    if first is not None and "quick" in first:  # round 3 keeps the whole first result file
+        first = first["quick"].get(pid, {})
+    status = json.load(open(os.path.join(d, "status.json"))) if os.path.exists(os.path.join(d, "status.json")) else {}
+    rows.append((pid, letter, meta, own, quick, first, status))
 
 out = ["# Independently seeded code changes", "",
        "Each change was written by a fresh sub-agent that was given only the property text and its own scratch git worktree of /repo",
@@ -26,11 +29,12 @@ out = ["# Independently seeded code changes", "",
        "demonstration (`demo_test.go.txt`: fails on the changed tree, passes on the original). `patch.diff` applies to /repo with",
        "`git -C /repo apply`; `tools/seeded_try.py <ID> <A|B> [--apply]` runs the checks against it (default: mapped over /repo with",
        "`-overlay`, so /repo is untouched while background runs use it; `--apply` does the literal apply / check / `git checkout -- .`).", "",
-       "Letters A, B: first round (20 agents); C, D: second round (20 more agents, asked for less obvious mechanisms).",
+       "Letters A, B: first round (20 agents); C, D: second round (20 more agents, asked for less obvious mechanisms); E, F: third round",
+       "(20 more agents). `neutralised` = a later `fix:` commit removed the situation the change needs: its own demonstration passes on HEAD + patch.",
        "`first` = verdict of the owning check's quick tier as it stood when the change arrived; `now` = after the check was strengthened",
        "(what was added is listed in DESIGN.md 8.7).", "",
        "| Change | What was changed | Needs | first | now | Signature(s) reported |", "|---|---|---|---|---|---|"]
-for pid, letter, meta, own, quick, first in rows:
+for pid, letter, meta, own, quick, first, status in rows:
     summ = (meta.get("summary") or "").replace("|", "/").replace("\n", " ")
     when = (meta.get("manifests_when") or "").replace("|", "/").replace("\n", " ")
     if len(summ) > 260:
@@ -41,6 +45,8 @@ for pid, letter, meta, own, quick, first in rows:
     if first is not None:
         f = "caught" if first.get("detected") else ("inconclusive" if first.get("exit") == 3 else "missed")
     now = "caught" if own.get("detected") else ("inconclusive" if own.get("exit") == 3 else "missed")
+    if status.get("status") == "neutralised" and not own.get("detected"):
+        now = "neutralised by %s" % status.get("by", "?")
     sigs = "; ".join(own.get("signatures", [])[:2]).replace("|", "/")
     if len(sigs) > 200:
         sigs = sigs[:197] + "..."
@@ -51,6 +57,7 @@ for pid, letter, meta, own, quick, first in rows:
 n = len(rows)
 caught_first = sum(1 for r in rows if r[5] and r[5].get("detected"))
 caught_now = sum(1 for r in rows if r[3].get("detected"))
-out += ["", "%d changes; %d caught by the owning check as first built, %d after strengthening." % (n, caught_first, caught_now), ""]
+neutral = sum(1 for r in rows if r[6].get("status") == "neutralised" and not r[3].get("detected"))
+out += ["", "%d changes; %d caught by the owning check as first built, %d after strengthening, %d neutralised by a later fix." % (n, caught_first, caught_now, neutral), ""]
 open(os.path.join(VERIF, "seeded", "README.md"), "w").write("\n".join(out))
 print("\n".join(out[-3:]))
